@@ -1,5 +1,6 @@
 """C01 - every submitted task runs exactly once, on one worker at a time."""
 import vlib
+import steptrace
 from vlib import Check
 
 
@@ -29,6 +30,10 @@ def run():
     for h, o in hist[:1]:
         chk.sample(h[:24])
     vlib.check_histories(chk, "LifeTrace", "LifeTrace.cfg", hist, "c01", batch=8)
+    # step-level binding of WakeImpl (shared with C02): the hooked steps on a task's state word must be the
+    # verified protocol's steps - a task whose deferred resume is dropped never completes
+    (wake,) = vlib.build_harness(["wake_harness"])
+    steptrace.check_steps(chk, vlib, wake, 18 if chk.thorough() else 6)
     chk.cov["rule"] = ("task forests (children, yields, blocking, priorities high/normal/low, stack sizes "
                        "small..large, submitters inside and outside the runtime) on 8 scheduling policies x 1-4 "
                        "workers with delays injected at the scheduling-loop / thread_queue / state-word hooks; "
